@@ -628,6 +628,11 @@ def run(F, R, config="all"):
     from . import c06
     K.borrow_rule(R, lambda sub: c06.r4(F, sub), "C07-R9", "after warmup adapt() calls update_stepsize(.., true) exactly once and unconditionally, so the step size "
                   "used for sampling is the averaged estimate whatever the jitter setting (decided by the C06-R4 analysis)", only_rules={"C06-R4"})
+    # "never above max_step_size": the bound the strategy clamps to must be the one the user set
+    from . import convert
+    import re as _re
+    convert.faithful_conversion(F, R, "C07-R11", focus=lambda path, key: bool(_re.search(r"(?i)step|dualaverage|adam|accept|jitter", key)),
+                                focus_text=" (step-size settings: method, bounds, target, jitter)")
     for k, v in PARAM_DOMAINS.items():
         R.assume("option %s in %s (documented domain)" % (k[2:], v))
     R.assume("acceptance statistics and target_accept lie in [0, 1]")
